@@ -32,9 +32,7 @@ def variance(key_mapper=lambda i: i, reduce=False):
             return 0.0
         else:
             mean = _moment(acc, 0, 1)
-            v = _moment(acc, mean, 2)
-            acc.clear()
-            return v
+            return _moment(acc, mean, 2)
 
     return rx.pipe(
         rs.ops.scan(accumulate, [], reduce=reduce),
